@@ -28,6 +28,7 @@ fn main() {
         if random > 0 {
             d.random::<8>(random / 2, &modes);
             d.random::<16>(random / 2, &modes);
+            d.big((random / 400).max(2), &modes);
         }
     }
     cx.finish();
